@@ -485,7 +485,7 @@ class SynGen:
 			self.f.add('stmt:try')
 			out = self.suite('try:', d, level, in_func, in_loop)
 			for _ in range(r.choice([1, 1, 2])):
-				h = 'except ' + r.choice(CLASSES[-2:] + ['mod.Err']) + (' as e' if r.random() < 0.6 else '') + ':'
+				h = 'except ' + r.choice(CLASSES[-2:] + ['mod.Err']) + (' as e' if r.random() < 0.9 else '') + ':'
 				out += self.suite(h, d, level, in_func, in_loop)
 			return out
 		if x < 0.90 and self.o['with']:
